@@ -61,7 +61,7 @@ func init() {
 type c12Op struct {
 	name, gofn, expr string
 	args             []string
-	flags            string // t = wrapped in try, r = safe on the real OS, g = uses gf, x = exit (child process)
+	flags            string // t = wrapped in try, r = safe on the real OS, g = uses gf, x = exit (child process), v = metacharacter argument, taken verbatim
 }
 
 var c12Ops = []c12Op{
@@ -185,6 +185,188 @@ var c12Ops = []c12Op{
 	{"os_exit_3", "modules/os.Exit", "os.exit(3)", []string{}, "xt"},
 	{"os_exit_err", "modules/os.Exit", "os.exit(errors.new(\"boom\"))", []string{}, "xt"},
 	{"os_exit_bad", "modules/os.Exit", "os.exit(\"s\")", []string{}, "t"},
+	// arguments with shell metacharacters (flag v: the host OS must receive the script's argument verbatim and nothing else);
+	// MF:<shape> / MD:<shape> = file / directory form of the shape, see sym
+	{"sh_cd_star", "modules/os.Chdir", "cd({0})", []string{"MD:star"}, "tv"},
+	{"sh_cd_quest", "modules/os.Chdir", "cd({0})", []string{"MD:quest"}, "tv"},
+	{"sh_cd_bracket", "modules/os.Chdir", "cd({0})", []string{"MD:bracket"}, "tv"},
+	{"sh_cd_env", "modules/os.Chdir", "cd({0})", []string{"MD:env"}, "tv"},
+	{"sh_cd_envb", "modules/os.Chdir", "cd({0})", []string{"MD:envb"}, "tv"},
+	{"sh_cd_envhost", "modules/os.Chdir", "cd({0})", []string{"MD:envhost"}, "tv"},
+	{"sh_cd_tilde", "modules/os.Chdir", "cd({0})", []string{"MD:tilde"}, "tv"},
+	{"sh_cd_rel", "modules/os.Chdir", "cd({0})", []string{"MD:rel"}, "tv"},
+	{"sh_ls_star", "modules/os.ReadDir", "len(ls({0}))", []string{"MD:star"}, "tv"},
+	{"sh_ls_quest", "modules/os.ReadDir", "len(ls({0}))", []string{"MD:quest"}, "tv"},
+	{"sh_ls_bracket", "modules/os.ReadDir", "len(ls({0}))", []string{"MD:bracket"}, "tv"},
+	{"sh_ls_env", "modules/os.ReadDir", "len(ls({0}))", []string{"MD:env"}, "tv"},
+	{"sh_ls_envb", "modules/os.ReadDir", "len(ls({0}))", []string{"MD:envb"}, "tv"},
+	{"sh_ls_envhost", "modules/os.ReadDir", "len(ls({0}))", []string{"MD:envhost"}, "tv"},
+	{"sh_ls_tilde", "modules/os.ReadDir", "len(ls({0}))", []string{"MD:tilde"}, "tv"},
+	{"sh_ls_rel", "modules/os.ReadDir", "len(ls({0}))", []string{"MD:rel"}, "tv"},
+	{"sh_cat_star", "modules/os.Cat", "cat({0})", []string{"MF:star"}, "tv"},
+	{"sh_cat_quest", "modules/os.Cat", "cat({0})", []string{"MF:quest"}, "tv"},
+	{"sh_cat_bracket", "modules/os.Cat", "cat({0})", []string{"MF:bracket"}, "tv"},
+	{"sh_cat_env", "modules/os.Cat", "cat({0})", []string{"MF:env"}, "tv"},
+	{"sh_cat_envb", "modules/os.Cat", "cat({0})", []string{"MF:envb"}, "tv"},
+	{"sh_cat_envhost", "modules/os.Cat", "cat({0})", []string{"MF:envhost"}, "tv"},
+	{"sh_cat_tilde", "modules/os.Cat", "cat({0})", []string{"MF:tilde"}, "tv"},
+	{"sh_cat_rel", "modules/os.Cat", "cat({0})", []string{"MF:rel"}, "tv"},
+	{"sh_cp_src_star", "modules/os.Copy", "cp({0}, {1})", []string{"MF:star", "FN"}, "tv"},
+	{"sh_cp_src_quest", "modules/os.Copy", "cp({0}, {1})", []string{"MF:quest", "FN"}, "tv"},
+	{"sh_cp_src_bracket", "modules/os.Copy", "cp({0}, {1})", []string{"MF:bracket", "FN"}, "tv"},
+	{"sh_cp_src_env", "modules/os.Copy", "cp({0}, {1})", []string{"MF:env", "FN"}, "tv"},
+	{"sh_cp_src_envb", "modules/os.Copy", "cp({0}, {1})", []string{"MF:envb", "FN"}, "tv"},
+	{"sh_cp_src_envhost", "modules/os.Copy", "cp({0}, {1})", []string{"MF:envhost", "FN"}, "tv"},
+	{"sh_cp_src_tilde", "modules/os.Copy", "cp({0}, {1})", []string{"MF:tilde", "FN"}, "tv"},
+	{"sh_cp_src_rel", "modules/os.Copy", "cp({0}, {1})", []string{"MF:rel", "FN"}, "tv"},
+	{"sh_cp_dst_star", "modules/os.Copy", "cp({0}, {1})", []string{"FA", "MF:star"}, "tv"},
+	{"sh_cp_dst_quest", "modules/os.Copy", "cp({0}, {1})", []string{"FA", "MF:quest"}, "tv"},
+	{"sh_cp_dst_bracket", "modules/os.Copy", "cp({0}, {1})", []string{"FA", "MF:bracket"}, "tv"},
+	{"sh_cp_dst_env", "modules/os.Copy", "cp({0}, {1})", []string{"FA", "MF:env"}, "tv"},
+	{"sh_cp_dst_envb", "modules/os.Copy", "cp({0}, {1})", []string{"FA", "MF:envb"}, "tv"},
+	{"sh_cp_dst_envhost", "modules/os.Copy", "cp({0}, {1})", []string{"FA", "MF:envhost"}, "tv"},
+	{"sh_cp_dst_tilde", "modules/os.Copy", "cp({0}, {1})", []string{"FA", "MF:tilde"}, "tv"},
+	{"sh_cp_dst_rel", "modules/os.Copy", "cp({0}, {1})", []string{"FA", "MF:rel"}, "tv"},
+	{"sh_bopen_star", "modules/os.Open", "open({0}).close()", []string{"MF:star"}, "tv"},
+	{"sh_bopen_quest", "modules/os.Open", "open({0}).close()", []string{"MF:quest"}, "tv"},
+	{"sh_bopen_bracket", "modules/os.Open", "open({0}).close()", []string{"MF:bracket"}, "tv"},
+	{"sh_bopen_env", "modules/os.Open", "open({0}).close()", []string{"MF:env"}, "tv"},
+	{"sh_bopen_envb", "modules/os.Open", "open({0}).close()", []string{"MF:envb"}, "tv"},
+	{"sh_bopen_envhost", "modules/os.Open", "open({0}).close()", []string{"MF:envhost"}, "tv"},
+	{"sh_bopen_tilde", "modules/os.Open", "open({0}).close()", []string{"MF:tilde"}, "tv"},
+	{"sh_bopen_rel", "modules/os.Open", "open({0}).close()", []string{"MF:rel"}, "tv"},
+	{"sh_os_chdir_star", "modules/os.Chdir", "os.chdir({0})", []string{"MD:star"}, "tv"},
+	{"sh_os_chdir_quest", "modules/os.Chdir", "os.chdir({0})", []string{"MD:quest"}, "tv"},
+	{"sh_os_chdir_bracket", "modules/os.Chdir", "os.chdir({0})", []string{"MD:bracket"}, "tv"},
+	{"sh_os_chdir_env", "modules/os.Chdir", "os.chdir({0})", []string{"MD:env"}, "tv"},
+	{"sh_os_chdir_envb", "modules/os.Chdir", "os.chdir({0})", []string{"MD:envb"}, "tv"},
+	{"sh_os_chdir_envhost", "modules/os.Chdir", "os.chdir({0})", []string{"MD:envhost"}, "tv"},
+	{"sh_os_chdir_tilde", "modules/os.Chdir", "os.chdir({0})", []string{"MD:tilde"}, "tv"},
+	{"sh_os_chdir_rel", "modules/os.Chdir", "os.chdir({0})", []string{"MD:rel"}, "tv"},
+	{"sh_os_read_dir_star", "modules/os.ReadDir", "len(os.read_dir({0}))", []string{"MD:star"}, "tv"},
+	{"sh_os_read_dir_quest", "modules/os.ReadDir", "len(os.read_dir({0}))", []string{"MD:quest"}, "tv"},
+	{"sh_os_read_dir_bracket", "modules/os.ReadDir", "len(os.read_dir({0}))", []string{"MD:bracket"}, "tv"},
+	{"sh_os_read_dir_env", "modules/os.ReadDir", "len(os.read_dir({0}))", []string{"MD:env"}, "tv"},
+	{"sh_os_read_dir_envb", "modules/os.ReadDir", "len(os.read_dir({0}))", []string{"MD:envb"}, "tv"},
+	{"sh_os_read_dir_envhost", "modules/os.ReadDir", "len(os.read_dir({0}))", []string{"MD:envhost"}, "tv"},
+	{"sh_os_read_dir_tilde", "modules/os.ReadDir", "len(os.read_dir({0}))", []string{"MD:tilde"}, "tv"},
+	{"sh_os_read_dir_rel", "modules/os.ReadDir", "len(os.read_dir({0}))", []string{"MD:rel"}, "tv"},
+	{"sh_os_read_file_star", "modules/os.ReadFile", "string(os.read_file({0}))", []string{"MF:star"}, "tv"},
+	{"sh_os_read_file_quest", "modules/os.ReadFile", "string(os.read_file({0}))", []string{"MF:quest"}, "tv"},
+	{"sh_os_read_file_bracket", "modules/os.ReadFile", "string(os.read_file({0}))", []string{"MF:bracket"}, "tv"},
+	{"sh_os_read_file_env", "modules/os.ReadFile", "string(os.read_file({0}))", []string{"MF:env"}, "tv"},
+	{"sh_os_read_file_envb", "modules/os.ReadFile", "string(os.read_file({0}))", []string{"MF:envb"}, "tv"},
+	{"sh_os_read_file_envhost", "modules/os.ReadFile", "string(os.read_file({0}))", []string{"MF:envhost"}, "tv"},
+	{"sh_os_read_file_tilde", "modules/os.ReadFile", "string(os.read_file({0}))", []string{"MF:tilde"}, "tv"},
+	{"sh_os_read_file_rel", "modules/os.ReadFile", "string(os.read_file({0}))", []string{"MF:rel"}, "tv"},
+	{"sh_os_open_star", "modules/os.Open", "os.open({0}).close()", []string{"MF:star"}, "tv"},
+	{"sh_os_open_quest", "modules/os.Open", "os.open({0}).close()", []string{"MF:quest"}, "tv"},
+	{"sh_os_open_bracket", "modules/os.Open", "os.open({0}).close()", []string{"MF:bracket"}, "tv"},
+	{"sh_os_open_env", "modules/os.Open", "os.open({0}).close()", []string{"MF:env"}, "tv"},
+	{"sh_os_open_envb", "modules/os.Open", "os.open({0}).close()", []string{"MF:envb"}, "tv"},
+	{"sh_os_open_envhost", "modules/os.Open", "os.open({0}).close()", []string{"MF:envhost"}, "tv"},
+	{"sh_os_open_tilde", "modules/os.Open", "os.open({0}).close()", []string{"MF:tilde"}, "tv"},
+	{"sh_os_open_rel", "modules/os.Open", "os.open({0}).close()", []string{"MF:rel"}, "tv"},
+	{"sh_os_stat_star", "modules/os.Stat", "os.stat({0}).size", []string{"MF:star"}, "tv"},
+	{"sh_os_stat_quest", "modules/os.Stat", "os.stat({0}).size", []string{"MF:quest"}, "tv"},
+	{"sh_os_stat_bracket", "modules/os.Stat", "os.stat({0}).size", []string{"MF:bracket"}, "tv"},
+	{"sh_os_stat_env", "modules/os.Stat", "os.stat({0}).size", []string{"MF:env"}, "tv"},
+	{"sh_os_stat_envb", "modules/os.Stat", "os.stat({0}).size", []string{"MF:envb"}, "tv"},
+	{"sh_os_stat_envhost", "modules/os.Stat", "os.stat({0}).size", []string{"MF:envhost"}, "tv"},
+	{"sh_os_stat_tilde", "modules/os.Stat", "os.stat({0}).size", []string{"MF:tilde"}, "tv"},
+	{"sh_os_stat_rel", "modules/os.Stat", "os.stat({0}).size", []string{"MF:rel"}, "tv"},
+}
+
+// c12Plain: the ordinary-argument operation each metacharacter operation must behave like (checked against Lean's Op.plain)
+var c12Plain = map[string]string{
+	"sh_cd_star": "cd",
+	"sh_cd_quest": "cd",
+	"sh_cd_bracket": "cd",
+	"sh_cd_env": "cd",
+	"sh_cd_envb": "cd",
+	"sh_cd_envhost": "cd",
+	"sh_cd_tilde": "cd",
+	"sh_cd_rel": "cd",
+	"sh_ls_star": "ls",
+	"sh_ls_quest": "ls",
+	"sh_ls_bracket": "ls",
+	"sh_ls_env": "ls",
+	"sh_ls_envb": "ls",
+	"sh_ls_envhost": "ls",
+	"sh_ls_tilde": "ls",
+	"sh_ls_rel": "ls",
+	"sh_cat_star": "cat1",
+	"sh_cat_quest": "cat1",
+	"sh_cat_bracket": "cat1",
+	"sh_cat_env": "cat1",
+	"sh_cat_envb": "cat1",
+	"sh_cat_envhost": "cat1",
+	"sh_cat_tilde": "cat1",
+	"sh_cat_rel": "cat1",
+	"sh_cp_src_star": "cp",
+	"sh_cp_src_quest": "cp",
+	"sh_cp_src_bracket": "cp",
+	"sh_cp_src_env": "cp",
+	"sh_cp_src_envb": "cp",
+	"sh_cp_src_envhost": "cp",
+	"sh_cp_src_tilde": "cp_missing",
+	"sh_cp_src_rel": "cp_missing",
+	"sh_cp_dst_star": "cp",
+	"sh_cp_dst_quest": "cp",
+	"sh_cp_dst_bracket": "cp",
+	"sh_cp_dst_env": "cp",
+	"sh_cp_dst_envb": "cp",
+	"sh_cp_dst_envhost": "cp",
+	"sh_cp_dst_tilde": "cp",
+	"sh_cp_dst_rel": "cp",
+	"sh_bopen_star": "bopen",
+	"sh_bopen_quest": "bopen",
+	"sh_bopen_bracket": "bopen",
+	"sh_bopen_env": "bopen",
+	"sh_bopen_envb": "bopen",
+	"sh_bopen_envhost": "bopen",
+	"sh_bopen_tilde": "os_open_missing",
+	"sh_bopen_rel": "os_open_missing",
+	"sh_os_chdir_star": "os_chdir",
+	"sh_os_chdir_quest": "os_chdir",
+	"sh_os_chdir_bracket": "os_chdir",
+	"sh_os_chdir_env": "os_chdir",
+	"sh_os_chdir_envb": "os_chdir",
+	"sh_os_chdir_envhost": "os_chdir",
+	"sh_os_chdir_tilde": "os_chdir",
+	"sh_os_chdir_rel": "os_chdir",
+	"sh_os_read_dir_star": "os_read_dir",
+	"sh_os_read_dir_quest": "os_read_dir",
+	"sh_os_read_dir_bracket": "os_read_dir",
+	"sh_os_read_dir_env": "os_read_dir",
+	"sh_os_read_dir_envb": "os_read_dir",
+	"sh_os_read_dir_envhost": "os_read_dir",
+	"sh_os_read_dir_tilde": "os_read_dir",
+	"sh_os_read_dir_rel": "os_read_dir",
+	"sh_os_read_file_star": "os_read_file",
+	"sh_os_read_file_quest": "os_read_file",
+	"sh_os_read_file_bracket": "os_read_file",
+	"sh_os_read_file_env": "os_read_file",
+	"sh_os_read_file_envb": "os_read_file",
+	"sh_os_read_file_envhost": "os_read_file",
+	"sh_os_read_file_tilde": "os_read_file",
+	"sh_os_read_file_rel": "os_read_file",
+	"sh_os_open_star": "os_open",
+	"sh_os_open_quest": "os_open",
+	"sh_os_open_bracket": "os_open",
+	"sh_os_open_env": "os_open",
+	"sh_os_open_envb": "os_open",
+	"sh_os_open_envhost": "os_open",
+	"sh_os_open_tilde": "os_open_missing",
+	"sh_os_open_rel": "os_open_missing",
+	"sh_os_stat_star": "os_stat",
+	"sh_os_stat_quest": "os_stat",
+	"sh_os_stat_bracket": "os_stat",
+	"sh_os_stat_env": "os_stat",
+	"sh_os_stat_envb": "os_stat",
+	"sh_os_stat_envhost": "os_stat",
+	"sh_os_stat_tilde": "os_stat",
+	"sh_os_stat_rel": "os_stat",
 }
 
 func (o *c12Op) has(f byte) bool { return strings.IndexByte(o.flags, f) >= 0 }
@@ -238,7 +420,48 @@ func (w *c12World) sym(a string) string {
 	if strings.HasPrefix(a, "=") {
 		return a[1:]
 	}
+	if strings.HasPrefix(a, "MF:") || strings.HasPrefix(a, "MD:") {
+		if p, ok := c12MetaArg(w.T, a[1] == 'D', a[3:]); ok {
+			return p
+		}
+	}
 	panic("unknown symbolic argument " + a)
+}
+
+// c12MetaShapes: shapes of path arguments that a shell would expand. The first six exist, under exactly
+// that name, in every recording OS's file system (<T>/meta, see reset) and in no real directory; what a
+// shell-like expansion against the REAL process would produce from them does exist for real (<T>/meta/a.txt,
+// b.txt, REAL-ONLY.txt, sub; the real variable VERIF_C12_KEY; the real working directory <T>/cwd with
+// a.txt, …, sub). "tilde" and "rel" are relative names that exist in no recording OS.
+var c12MetaShapes = []string{"star", "quest", "bracket", "env", "envb", "envhost", "tilde", "rel"}
+
+func c12MetaArg(T string, dir bool, shape string) (string, bool) {
+	m := T + "/meta/"
+	var f, d string
+	switch shape {
+	case "star":
+		f, d = m+"*.txt", m+"s*"
+	case "quest":
+		f, d = m+"?.txt", m+"su?"
+	case "bracket":
+		f, d = m+"[ab].txt", m+"[s]ub"
+	case "env":
+		f, d = m+"$"+c12EnvKey+".txt", m+"$"+c12EnvKey
+	case "envb":
+		f, d = m+"${"+c12EnvKey+"}.txt", m+"${"+c12EnvKey+"}"
+	case "envhost":
+		f, d = m+"$OTHER.txt", m+"$OTHER"
+	case "tilde":
+		f, d = "~/a.txt", "~"
+	case "rel":
+		f, d = "*.txt", "s*"
+	default:
+		return "", false
+	}
+	if dir {
+		return d, true
+	}
+	return f, true
 }
 
 func (w *c12World) buildTree() {
@@ -247,6 +470,12 @@ func (w *c12World) buildTree() {
 	os.MkdirAll(filepath.Join(w.T, "cwd"), 0o755)
 	os.WriteFile(filepath.Join(w.T, "dir", "a.txt"), []byte("REAL-FILE-A\nline2\n"), 0o644)
 	os.WriteFile(filepath.Join(w.T, "dir", "b.txt"), []byte("REAL-FILE-B\n"), 0o644)
+	// what the metacharacter arguments would expand to against the real process (see c12MetaShapes)
+	os.MkdirAll(filepath.Join(w.T, "meta", "sub"), 0o755)
+	for _, f := range []string{"a.txt", "b.txt", "REAL-ONLY.txt", c12RealEnv + ".txt", ".txt"} {
+		os.WriteFile(filepath.Join(w.T, "meta", f), []byte("REAL-FILE-META\n"), 0o644)
+	}
+	os.MkdirAll(filepath.Join(w.T, "meta", c12RealEnv), 0o755)
 	// second part (VirtualOS sessions): the relative paths the sessions use exist, with real content,
 	// below both working directories the real process is put into; a second temp dir and two home dirs
 	for _, cwd := range []string{"cwd", "cwd2"} {
@@ -821,6 +1050,13 @@ func (o *c12RecOS) reset() {
 	m.MkdirAll(T+"/cwd", 0o755)
 	m.WriteFile(T+"/dir/a.txt", []byte("HOST-"+o.id+"-FILE-A\nline2\n"), 0o644)
 	m.WriteFile(T+"/dir/b.txt", []byte("HOST-"+o.id+"-FILE-B\n"), 0o644)
+	m.MkdirAll(T+"/meta", 0o755)
+	for _, sh := range c12MetaShapes[:6] {
+		f, _ := c12MetaArg(T, false, sh)
+		d, _ := c12MetaArg(T, true, sh)
+		m.WriteFile(f, []byte("HOST-"+o.id+"-META-"+sh+"\n"), 0o644)
+		m.MkdirAll(d, 0o755)
+	}
 	o.mem = m
 	o.exits = nil
 	o.inner = ros.NewVirtualOS(context.Background(),
@@ -1338,6 +1574,12 @@ func c12RunCaseD(w *c12World, cs c12Case, deadline time.Duration) (results []c12
 		r.Log = c12DropSep(c12Canon(w.takeLog(), w.T))
 		r.Effects = w.realEffects()
 		r.Leaks = w.leaks(r.Result)
+		for _, l := range r.Log {
+			if strings.Contains(l, "REAL-") {
+				r.Leaks = append(r.Leaks, "real sentinel content passed to the host OS in "+l)
+				break
+			}
+		}
 		for _, o := range oses {
 			o.reset()
 		}
@@ -1824,6 +2066,17 @@ func c12Judge(e *Env, w *c12World, cs c12Case, exp []c12Expect, res []c12EvResul
 	}
 	e.R.Case(key, nontrivial)
 	e.R.H("op", cs.Op)
+	if op.has('v') {
+		for _, a := range op.args {
+			if strings.HasPrefix(a, "MF:") || strings.HasPrefix(a, "MD:") {
+				e.R.H("metachar_argument", map[string]string{"star": "wildcard *", "quest": "wildcard ?", "bracket": "wildcard [..]", "env": "$NAME set in the real process and in the host OS",
+					"envb": "${NAME}", "envhost": "$NAME set only in the host OS", "tilde": "leading ~ (relative, not in the host FS)", "rel": "relative wildcard (not in the host FS)"}[a[3:]]+
+					map[bool]string{true: ", directory", false: ", file"}[a[1] == 'D'])
+			}
+		}
+	} else {
+		e.R.H("metachar_argument", "none")
+	}
 	e.R.H("go_function", op.gofn)
 	e.R.H("path_depth", strconv.Itoa(len(cs.Path)))
 	for i := 0; i < len(cs.Path); i++ {
@@ -1953,6 +2206,22 @@ func c12Judge(e *Env, w *c12World, cs c12Case, exp []c12Expect, res []c12EvResul
 				bad = append(bad, "operation "+k+" was not served by any recording OS")
 			}
 		}
+		// a metacharacter argument must reach the OS verbatim: the hosts' OSes are asked for nothing but what the
+		// operation needs (as often as this event executes it), whichever of them is asked
+		if op.has('v') {
+			allowed := map[string]int{}
+			for _, t := range want {
+				allowed[t[strings.Index(t, ":")+1:]]++
+			}
+			for _, l := range r.Log {
+				k := l[strings.Index(l, ":")+1:]
+				if allowed[k] == 0 {
+					bad = append(bad, "the host OS was asked for "+k+", which the script did not pass (its path argument must reach the OS verbatim)")
+				} else {
+					allowed[k]--
+				}
+			}
+		}
 		// the recording must contain the calls the operation needs *on a supplied OS*; a stream attribute
 		// served from the module object's cache shows as a missing Stdin()/Stdout()/Stderr() call
 		if len(bad) > 0 {
@@ -1990,6 +2259,9 @@ func c12_runC12(e *Env) {
 		"with the clone-call function of the machine's latest top-level run, with a context of the host's own (bare or carrying an OS); the path nests closure call, list.map callback, try, defer, spawn(), go, f.spawn(), " +
 		"clone-call, imported-module function and imported-module body to depth 0-5 around one of the operations (every exported function of the " +
 		"os, filepath and fmt modules, the shell-style builtins, print/printf, every file method, with argument shapes incl. error paths); " +
+		"the path-taking builtins cd/ls/cat/cp/open and os.chdir/read_dir/read_file/open/stat also with arguments made of shell metacharacters (wildcards *, ?, [..]; $NAME and ${NAME} " +
+		"of a variable set in the real process and in the host OS, or only in the host OS; leading ~; relative wildcards): names that exist literally only in the recording OSes' file " +
+		"systems while what a shell would expand them to exists only in the real process; the host OS must be asked for the script's argument verbatim and for nothing else; " +
 		"directed part: every operation x every single context kind x both routes x {top-level run, cloned VM call}; random part seeded. " +
 		"Non-trivial when the operation performs >= 1 OS call in the model; distinct by the (history, path, operation) triple. " +
 		"Second part (the OS implementation risor ships for hosts): a case is a session = (VirtualOS configuration {every option set, only mounts}, " +
@@ -2032,6 +2304,27 @@ func c12_runC12(e *Env) {
 	}
 	for k := range lean {
 		e.R.Mismatch("op table "+k, "-", "present", "operation in the Lean table but not in the harness")
+	}
+	// the metacharacter operations and the ordinary-argument operations they must behave like: same table on both sides
+	{
+		leanPlain := map[string]string{}
+		for _, f := range strings.Split(e.O.Ask("C12", "shellops"), ",") {
+			p := strings.Split(f, "=")
+			if len(p) == 3 {
+				leanPlain[p[0]] = p[1]
+				if p[2] != "true" {
+					e.R.Mismatch("shell op "+p[0], "calls differ from "+p[1], "same calls", "Lean: Op.calls of a metacharacter operation vs its plain operation")
+				}
+			}
+		}
+		for _, op := range c12Ops {
+			if op.has('v') != (c12Plain[op.name] != "") || leanPlain[op.name] != c12Plain[op.name] {
+				e.R.Mismatch("shell op table "+op.name, c12Plain[op.name], leanPlain[op.name], "harness table of metacharacter operations vs Lean shellOps/Op.plain")
+			}
+			if pl := c12Plain[op.name]; pl != "" && (c12OpByName(pl) == nil || c12OpByName(pl).gofn != op.gofn) {
+				e.R.Mismatch("shell op table "+op.name, op.gofn, pl, "plain operation has another Go function")
+			}
+		}
 	}
 
 	{
